@@ -415,6 +415,9 @@ func writeTree(b *bytes.Buffer, j *jnode, rnd func(int) int) {
 		}
 	case jArr:
 		b.WriteByte('[')
+		if len(j.arr) == 0 {
+			ws() // whitespace is allowed inside an empty array as well: [ ]
+		}
 		for i, x := range j.arr {
 			if i > 0 {
 				b.WriteByte(',')
@@ -426,6 +429,9 @@ func writeTree(b *bytes.Buffer, j *jnode, rnd func(int) int) {
 		b.WriteByte(']')
 	case jObj:
 		b.WriteByte('{')
+		if len(j.keys) == 0 {
+			ws() // and inside an empty object: { }
+		}
 		for i, k := range j.keys {
 			if i > 0 {
 				b.WriteByte(',')
@@ -472,4 +478,39 @@ func canonTags(j *jnode) *jnode {
 		}
 	}
 	return j
+}
+
+// writeDocument: the whole text, with optional whitespace before and after the top value too.
+func writeDocument(b *bytes.Buffer, j *jnode, rnd func(int) int) {
+	pad := func() {
+		if rnd != nil {
+			b.WriteString([]string{"", "", " ", "\n", "\r\n\t", "  \n"}[rnd(6)])
+		}
+	}
+	pad()
+	writeTree(b, j, rnd)
+	pad()
+}
+
+// panicError: the implementation panicked instead of returning.
+type panicError struct{ v interface{} }
+
+func (p panicError) Error() string { return fmt.Sprintf("implementation panicked: %v", p.v) }
+
+func safeMarshal(v interface{}) (b []byte, err error) {
+	defer func() {
+		if r := recover(); r != nil {
+			b, err = nil, panicError{r}
+		}
+	}()
+	return json.Marshal(v)
+}
+
+func safeUnmarshal(data []byte, v interface{}) (err error) {
+	defer func() {
+		if r := recover(); r != nil {
+			err = panicError{r}
+		}
+	}()
+	return json.Unmarshal(data, v)
 }
